@@ -96,6 +96,10 @@ def wrappers():
         'nofinalnl': lambda L: (b'[snoopy]\n' + b'\n'.join(L)),
         'section_comment': lambda L: b'[snoopy] ; the section\n\n\n' + b''.join(l + b'\n\n' for l in L),
         'continuation': lambda L: b'[snoopy]\n' + b''.join(l + b'\n   continued text\n' for l in L),
+        # sections whose names are near misses of "snoopy" (longer, shorter, other case, blanks inside the brackets) hold other values for everything
+        'nearmiss_sections_after': lambda L: b'[snoopy]\n' + b''.join(l + b'\n' for l in L) + b'[snoopy-old]\noutput = stdout\nerror_logging = yes\nlog_message_max_length = 999\n[snoopy2]\nmessage_format = wrong3\n'
+                                             b'[snoop]\nsyslog_level = DEBUG\n[Snoopy]\nsyslog_facility = LOCAL7\n[ snoopy ]\nfilter_chain = only_uid:7\n[snoopy ]\nsyslog_ident = wrongident\ndatasource_message_max_length = 777\n',
+        'nearmiss_sections_before': lambda L: b'[snoopy.disabled]\nmessage_format = wrong4\noutput = stderr\nerror_logging = yes\n[snoopyx]\nsyslog_level = EMERG\n[snoopy]\n' + b''.join(l + b'\n' for l in L),
         'section_twice': lambda L: b'[snoopy]\n' + L[0] + b'\n[other]\nmessage_format = wrong2\noutput = stderr\n[snoopy]\n' + b''.join(l + b'\n' for l in L[1:]),
         'leading_blanks': lambda L: b'[snoopy]\n \t' + L[0] + b'\n' + (b'[snoopy]\n  ' + b'\n[snoopy]\n  '.join(L[1:]) + b'\n' if len(L) > 1 else b''),
         'upper_section': lambda L: b'[SNOOPY]\n' + b''.join(l + b'\n' for l in L),
@@ -120,7 +124,7 @@ def gen_files(outs, tier):
     red = reduced(alpha)
     lines = [(n, v) for n, vs in red.items() for v in vs]
     for (n1, v1), (n2, v2) in itertools.product(lines, repeat=2):
-        for wn in (('plain', 'other_after', 'junkline') if tier == 'quick' else W):
+        for wn in (('plain', 'other_after', 'junkline', 'nearmiss_sections_after') if tier == 'quick' else W):
             files.append(('2:%s=%s|%s=%s:%s' % (n1.decode(), v1.decode('latin-1'), n2.decode(), v2.decode('latin-1'), wn), W[wn]([STYLES[0](n1, v1), STYLES[1](n2, v2)])))
     if tier == 'thorough':
         small = [(n, vs[0]) for n, vs in red.items()] + [(b'output', b'stdout'), (b'output', b'nosuch'), (b'syslog_level', b'a'), (b'log_message_max_length', b'0')]
